@@ -37,6 +37,7 @@ class Obligation:
     cites: list = field(default_factory=list)
     tanh_as_exp: bool = True
     inst: list = field(default_factory=list)  # ground-instance generators: f(list of asserts) -> list of true facts
+    ratfun: tuple = None  # (lhs, rhs): decide lhs == rhs as a rational-function identity with the sympy back end
     # result
     status: str = None  # discharged | refuted | unknown | ok | vacuous | control_failed | untranslatable
     backend: str = None
@@ -164,8 +165,68 @@ def discharge_all(obs, timeout_ms, jobs=None):
     return obs
 
 
+def z3_to_sympy(e, syms):
+    """z3 real term (+,-,*,/,numerals, constants, array reads as atoms) -> sympy expression"""
+    import sympy
+
+    if z3.is_rational_value(e):
+        return sympy.Rational(e.numerator_as_long(), e.denominator_as_long())
+    if z3.is_int_value(e):
+        return sympy.Integer(e.as_long())
+    k = e.decl().kind()
+    ch = e.children()
+    if k == z3.Z3_OP_ADD:
+        return sum((z3_to_sympy(c, syms) for c in ch), sympy.Integer(0))
+    if k == z3.Z3_OP_SUB:
+        r = z3_to_sympy(ch[0], syms)
+        for c in ch[1:]:
+            r = r - z3_to_sympy(c, syms)
+        return r
+    if k == z3.Z3_OP_UMINUS:
+        return -z3_to_sympy(ch[0], syms)
+    if k == z3.Z3_OP_MUL:
+        r = sympy.Integer(1)
+        for c in ch:
+            r = r * z3_to_sympy(c, syms)
+        return r
+    if k == z3.Z3_OP_DIV:
+        return z3_to_sympy(ch[0], syms) / z3_to_sympy(ch[1], syms)
+    if k == z3.Z3_OP_TO_REAL:
+        return z3_to_sympy(ch[0], syms)
+    if k == z3.Z3_OP_POWER and z3.is_int_value(ch[1]):
+        return z3_to_sympy(ch[0], syms) ** ch[1].as_long()
+    if k in (z3.Z3_OP_UNINTERPRETED, z3.Z3_OP_SELECT) :
+        key = e.get_id()
+        if key not in syms:
+            syms[key] = sympy.Symbol(f"v{len(syms)}")
+        return syms[key]
+    raise NotImplementedError(f"z3_to_sympy: {e.decl()}")
+
+
+def rational_identity(lhs, rhs):
+    """Decide lhs == rhs as an identity of rational functions (normal form: cancel(together(lhs - rhs)) == 0).
+    Sound wherever all denominators are non-zero (proved by separate SMT obligations)."""
+    import sympy
+
+    syms = {}
+    d = sympy.together(z3_to_sympy(lhs, syms) - z3_to_sympy(rhs, syms))
+    num, _den = sympy.fraction(sympy.cancel(d))
+    return sympy.expand(num) == 0
+
+
 def _discharge_once(ob, timeout_ms=20000, second_backend=True):
     t0 = time.time()
+    if getattr(ob, "ratfun", None) is not None:
+        lhs, rhs = ob.ratfun
+        try:
+            ok = rational_identity(lhs, rhs)
+            ob.status = "discharged" if ok else "refuted"
+            ob.solver_output = "" if ok else "sympy: cancel(together(lhs - rhs)) has a non-zero numerator"
+        except Exception as ex:
+            ob.status, ob.solver_output = "unknown", f"sympy back end: {type(ex).__name__}: {ex}"
+        ob.backend = "sympy-ratfun"
+        ob.ms = (time.time() - t0) * 1000
+        return ob
     if ob.expect != "valid":
         timeout_ms = min(timeout_ms, 2000)
         second_backend = False
@@ -191,6 +252,17 @@ def _discharge_once(ob, timeout_ms=20000, second_backend=True):
     s.add(*ax)
     r = s.check()
     ob.backend = f"z3-{z3.get_version_string()}"
+    if r == z3.unknown and ob.expect == "valid" and not any(_has_q(a) for a in asserts):
+        # (0) non-linear terms abstracted to uninterpreted functions: EUF + linear arithmetic, `unsat` is conclusive
+        try:
+            t = z3.Solver()
+            t.set("timeout", min(timeout_ms, 5000))
+            t.add(*abstract_nonlinear(asserts + ax))
+            if t.check() == z3.unsat:
+                r, s = z3.unsat, t
+                ob.backend = f"z3-{z3.get_version_string()}(nonlinear terms abstracted)"
+        except Exception as ex:  # pragma: no cover
+            ob.solver_output = f"abstraction failed: {ex}"
     if r == z3.unknown and has_t2 and not any(_has_q(a) for a in asserts):
         # Ackermann reduction of the T2 symbols (exact for ground formulas) -> pure QF_NRA -> nlsat
         try:
@@ -245,6 +317,13 @@ def _discharge_once(ob, timeout_ms=20000, second_backend=True):
             ob.solver_output = f"sat; model: {str(m)[:1500]}"
             if ob.replay and "vars" in ob.replay:
                 ob.model = model_values(m, ob.replay["vars"])
+                if ob.replay.get("arrays"):
+                    try:
+                        nval = m.eval(ob.replay["vars"]["n"], model_completion=True).as_long()
+                    except Exception:
+                        nval = 0
+                    for aname, arr in ob.replay["arrays"].items():
+                        ob.model["arr:" + aname] = [_val(m.eval(z3.Select(arr, k), model_completion=True)) for k in range(max(0, min(nval, 16)))]
                 for fname, decl in (ob.replay.get("funcs") or {}).items():
                     tab = []
                     for a in apps_of(decl, asserts):
@@ -302,6 +381,51 @@ def ackermannize(asserts, congruence=True):
         for (c1, a1), (c2, a2) in itertools.combinations(lst, 2):
             out.append(z3.Implies(a1 == a2, c1 == c2))
     return out
+
+
+_UDIV = z3.Function("udiv", z3.RealSort(), z3.RealSort(), z3.RealSort())
+_UMUL = z3.Function("umul", z3.RealSort(), z3.RealSort(), z3.RealSort())
+
+
+def abstract_nonlinear(asserts):
+    """Replace every division and every non-linear product by an uninterpreted function application (commutativity of
+    the product is kept by ordering the factors).  The abstraction has MORE models, so `unsat` is conclusive; it turns
+    'the code's formula equals the spec's formula by congruence' obligations into EUF + linear arithmetic."""
+    cache = {}
+
+    def is_num(e):
+        return z3.is_rational_value(e) or z3.is_int_value(e)
+
+    def rb(e):
+        i = e.get_id()
+        if i in cache:
+            return cache[i]
+        r = e
+        if z3.is_quantifier(e):
+            raise ValueError("quantifier")
+        if z3.is_app(e) and e.num_args() > 0:
+            ch = [rb(c) for c in e.children()]
+            k = e.decl().kind()
+            if k == z3.Z3_OP_DIV and e.sort() == z3.RealSort():
+                r = ch[0] / ch[1] if is_num(ch[1]) else _UDIV(ch[0], ch[1])
+            elif k == z3.Z3_OP_MUL and e.sort() == z3.RealSort():
+                nums = [c for c in ch if is_num(c)]
+                rest = [c for c in ch if not is_num(c)]  # factor order kept (sorting by id would break congruence)
+                acc = None
+                for c in rest:
+                    acc = c if acc is None else _UMUL(acc, c)
+                if acc is None:
+                    r = e.decl()(*ch)
+                else:
+                    r = acc
+                    for c in nums:
+                        r = c * r
+            else:
+                r = e.decl()(*ch)
+        cache[i] = r
+        return r
+
+    return [rb(a) for a in asserts]
 
 
 def apps_of(decl, exprs):
@@ -379,7 +503,17 @@ class Ctx:
         self.interp.used_lib, self.interp.executed, self.interp.dropped = used, ex, dr
         return self.interp
 
-    def oblige(self, oid, goal, hyps=(), props=(), kind="post", expect="valid", fn=None, replay=None, cases=None, **kw):
+    def oblige(self, oid, goal, hyps=(), props=(), kind="post", expect="valid", fn=None, replay=None, cases=None, cuts=None, **kw):
+        if cuts:
+            # intermediate assertions (like `assert` hints in Dafny): each cut is proved from the hypotheses and the
+            # earlier cuts (optionally from a stated SUBSET of the hypotheses), then may be assumed for the goal
+            acc = []
+            for cut in cuts:
+                cname, cform = cut[0], cut[1]
+                chyps = list(cut[2]) if len(cut) > 2 and cut[2] is not None else list(hyps)
+                self.oblige(f"{oid}/cut:{cname}", cform, chyps + acc, props, kind="cut", fn=fn, replay=replay, cases=None, **kw)
+                acc.append(cform)
+            return self.oblige(oid, goal, list(hyps) + acc, props, kind=kind, expect=expect, fn=fn, replay=replay, cases=cases, **kw)
         if cases:
             # case split (helps the nonlinear solver): one obligation per case + exhaustiveness of the cases
             self.oblige(f"{oid}/cases_exhaustive", z3.Or(*[c for _n, c in cases]), hyps, props, kind="cases", fn=fn, **kw)
